@@ -361,12 +361,16 @@ def check_r122(fx, rep):
                             if bound_names & used:
                                 res = True
                 if not res:
-                    # a dominating explicit comparison of this very term with WORD_SIZE_BITS in an enclosing `if`/let-else
-                    for anc, key in ps:
-                        if anc.get("k") == "If" and key in ("then", "else"):
-                            ct = T.term(anc["cond"], env, mutated)
-                            if mentions_word_bits(ct, fx) and any(s == t for s in T.subterms(ct)):
-                                res = True
+                    # a comparison of this very term with WORD_SIZE_BITS (or a bounded term) that is known to hold here:
+                    # an enclosing `if t < W {..}` / the else of `if t >= W`, or an earlier `if t >= W { return .. }`
+                    def strip_ref(x):
+                        while isinstance(x, tuple) and x and x[0] in ("ref", "deref") and len(x) > 1:
+                            x = x[1]
+                        return x
+
+                    for lhs, rhs, strict in T.upper_bounds(ps, node, env, mutated):
+                        if strip_ref(lhs) == strip_ref(t) and (mentions_word_bits(rhs, fx) or bounded(rhs, fx) is True):
+                            res = True
                 if res and f == "size" and "offset" in fields:
                     # `size.min(WORD_SIZE_BITS - X)`: X must be the very offset stored next to it
                     off_t = T.term(fields["offset"], env, mutated)
